@@ -71,6 +71,8 @@ func AllStyles() []Style {
 func esc(s string, attr bool) string {
 	r := strings.NewReplacer("&", "&amp;", "<", "&lt;", ">", "&gt;")
 	s = r.Replace(s)
+	// XML 1.0 2.11: a literal CR is normalised to LF by every parser; only a character reference carries it
+	s = strings.ReplaceAll(s, "\r", "&#13;")
 	if attr {
 		s = strings.ReplaceAll(s, `"`, "&quot;")
 		s = strings.ReplaceAll(s, "\n", "&#10;")
